@@ -135,12 +135,14 @@ def gen_disp(rng: random.Random, nasty: float, power: int | None = None) -> dict
         'multi': None,
     }
     if rng.random() < 0.45:
-        kind = rng.choice(['full', 'full', 'nocolors', 'somecolors', 'blend0'])
+        kind = rng.choice(['full', 'full', 'nocolors', 'somecolors', 'blend0', 'alpha0'])
         def v4() -> list[float]:
             return [rng.choice([0.0, 1.0, 0.5, rng.random(), rfloat(rng)]) for _ in range(4)]
         m = {'kind': kind, 'blend': [v4() for _ in range(n)], 'alpha': [v4() for _ in range(n)], 'colors': []}
         if kind == 'blend0':
             m['blend'] = [[0.0] * 4 for _ in range(n)]
+        if kind == 'alpha0':        # blend weights present, every other member of the group at its default
+            m['alpha'] = [[0.0] * 4 for _ in range(n)]
         for i in range(n):
             if kind == 'nocolors' or (kind == 'somecolors' and rng.random() < 0.5):
                 m['colors'].append(None)
